@@ -180,6 +180,8 @@ spec encByte(c int, k int) int :=
   (encLen(c) == 2 ? (k == 0 ? sb(192 + c / 64) : sb(128 + c % 64)) :
   (encLen(c) == 3 ? (k == 0 ? sb(224 + c / 4096) : (k == 1 ? sb(128 + (c / 64) % 64) : sb(128 + c % 64))) :
                     (k == 0 ? sb(240 + c / 262144) : (k == 1 ? sb(128 + (c / 4096) % 64) : (k == 2 ? sb(128 + (c / 64) % 64) : sb(128 + c % 64))))))
+// no byte of an encoding is NUL (except the encoding of U+0000), and each one is a C char
+lemma enc_nonzero [C12]: forall c int, k int :: validCp(c) && c != 0 && 0 <= k && k < encLen(c) ==> encByte(c, k) != 0 && -128 <= encByte(c, k) && encByte(c, k) <= 127
 // code point encoded by the w bytes at p (the bit arithmetic is kept behind function symbols: most proofs only
 // need that the same bytes decode to the same code point)
 spec dec2(a int, b int) int
@@ -256,7 +258,8 @@ func ddp_reallocate [C05, C12]
 // a well-formed Text: either the canonical empty one (NULL, 0) or a block of exactly cap >= 2 bytes that ends with the
 // only NUL it contains
 spec wfStr(s *ddpstring) bool :=
-  s != nil && (s.str.B == nil ? s.cap == 0 : (s.str.O == 0 && s.cap >= 2 && s.str.B.$n == s.cap && nulAt(s.str, s.cap - 1)))
+  s != nil && (s.str.B == nil ==> s.cap == 0) &&
+  (s.str.B != nil ==> s.str.O == 0 && s.cap >= 2 && s.str.B.$n == s.cap && nulAt(s.str, s.cap - 1))
 // number of code points of a well-formed Text (lead bytes)
 spec cpCount(s *ddpstring) int := s.str.B == nil ? 0 : count(k, 0, s.cap - 1, !isCont(byteAt(s.str, k)))
 
@@ -397,7 +400,9 @@ func ddp_string_from_constant [C12, C05]
 func ddp_char_to_string [C12, C05]
   requires ret != nil
   modifies ddprt.ddpstring, ddprt.Blk.$n, ddprt.Blk.$m
-  ensures ret.str.B != nil && ret.str.O == 0 && ret.str.B.$n == ret.cap && nulAt(ret.str, ret.cap - 1)
+  uses enc_nonzero
+  ensures tolStr(ret)
+  ensures validCp(c) && c != 0 ==> wfStr(ret)
   ensures validCp(c) && c != 0 ==> ret.cap == encLen(c) + 1 && (forall k int :: 0 <= k && k < encLen(c) ==> byteAt(ret.str, k) == encByte(c, k))
   ensures !validCp(c) ==> ret.cap == 1
 
@@ -406,7 +411,8 @@ func ddp_char_to_string [C12, C05]
 func ddp_char_string_verkettet [C12, C05]
   requires wfStr(str) && ret != nil && ret != str
   modifies ddprt.ddpstring, ddprt.Blk.$n, ddprt.Blk.$m
-  ensures wfStr(ret)
+  uses enc_nonzero
+  ensures c != 0 ==> wfStr(ret)
   ensures validCp(c) && c != 0 ==> lenB(ret) == encLen(c) + old(lenB(str))
   ensures validCp(c) && c != 0 ==> (forall k int :: 0 <= k && k < encLen(c) ==> byteAt(ret.str, k) == encByte(c, k))
   ensures validCp(c) && c != 0 ==> (forall k int :: 0 <= k && k < old(lenB(str)) ==> byteAt(ret.str, encLen(c) + k) == old(byteAt(str.str, k)))
@@ -415,7 +421,8 @@ func ddp_char_string_verkettet [C12, C05]
 func ddp_string_char_verkettet [C12, C05]
   requires wfStr(str) && ret != nil && ret != str
   modifies ddprt.ddpstring, ddprt.Blk.$n, ddprt.Blk.$m
-  ensures wfStr(ret)
+  uses enc_nonzero
+  ensures c != 0 ==> wfStr(ret)
   ensures validCp(c) && c != 0 ==> lenB(ret) == old(lenB(str)) + encLen(c)
   ensures validCp(c) && c != 0 ==> (forall k int :: 0 <= k && k < old(lenB(str)) ==> byteAt(ret.str, k) == old(byteAt(str.str, k)))
   ensures validCp(c) && c != 0 ==> (forall k int :: 0 <= k && k < encLen(c) ==> byteAt(ret.str, old(lenB(str)) + k) == encByte(c, k))
